@@ -200,7 +200,7 @@ func (o JOp) coq() string {
 		return fmt.Sprintf("JPar (mkPReq %s %s %s) %s", b.Cred.coq(), b.Params.coq(), b.Bind.coq(), optRO(o.Obj))
 	case "JBc":
 		b := o.Base
-		return fmt.Sprintf("JBc (mkBReq %s %s %s %s %s %s %s) %s", b.Cred.coq(), b.Params.coq(), b.Bind.coq(), cB(b.InitOK), cS(b.Sub), cS(b.Granted), cList(b.GrantedRes, cS), optRO(o.Obj))
+		return fmt.Sprintf("JBc (mkBReq %s %s %s %s %s %s %s %s) %s", b.Cred.coq(), b.Params.coq(), b.Bind.coq(), cB(b.InitOK), cS(b.Sub), cS(b.Granted), cList(b.GrantedRes, cS), cList(b.GrantedDetails, Detail.coq), optRO(o.Obj))
 	}
 	return "JBase (" + o.Base.coq() + ")"
 }
